@@ -255,7 +255,22 @@ def check_cfg(F, R, cfg):
                     xyz.append(r[2] if r[0] == "local" and r[1] == fl[1] else None)
                 same_repr = root(fv, s2["args"][0])[:2] == root(fv, s1t["args"][0])[:2]
                 good = from_s1 and xyz == [".1", ".2", ".3"] and same_repr
-        (R.ok if good else R.viol)("C17.edwards_from_bytes", I("GroupEncoding for EdwardsPoint::from_bytes"), "CtOption::new(step_2(repr, X,Y,Z of step_1), validity flag of step_1) (= decompress)" if good else
+        epa_ = F.adts.get(EP)
+        if not good and epa_:
+            # structural form not recognised (or the native decoder's private helpers were renamed): decide the group decoder itself
+            import tables
+            import formula_rules as FR_
+            fe_ty_ = epa_["variants"][0]["fields"][0]["ty"]
+            sem = [FR_.decode_instance(F, fe_ty_, r"EdwardsPoint as group::GroupEncoding>::from_bytes$", "GroupEncoding::from_bytes", sg_, raw_bytes=True) for sg_ in (0, 1)]
+            t_ok, t_msg = tables.ctoption_flag_table(F, f, r"::sqrt_ratio_i$")
+            if all(x[2] for x in sem) and t_ok:
+                R.ok("C17.edwards_from_bytes", I("GroupEncoding for EdwardsPoint::from_bytes"), "structural form not recognised; decided semantically: for both sign bits the value is the point "
+                     "(+-r, y, 1, x y) with r the root of (y^2-1)/(d y^2+1), and " + t_msg)
+                good = None
+        if good is None:
+            pass
+        else:
+          (R.ok if good else R.viol)("C17.edwards_from_bytes", I("GroupEncoding for EdwardsPoint::from_bytes"), "CtOption::new(step_2(repr, X,Y,Z of step_1), validity flag of step_1) (= decompress)" if good else
                                    "group decoding does not use the native decoder's flag and coordinates", *(() if good else (fv.loc(),)))
     delegates("C17.edwards_from_bytes", EP, r"GroupEncoding$", "from_bytes_unchecked", r"GroupEncoding>::from_bytes$", [1], "from_bytes_unchecked = from_bytes")
     f = method(EP, r"GroupEncoding$", "to_bytes")
